@@ -1,7 +1,7 @@
 (* C10 -- the overlay shows the overlayfs union of its layers and never modifies lowers.
    Only statements, closed by [exact]; proofs live in Proofs/Overlay*.v. *)
 From Coq Require Import List String NArith Bool.
-From FB Require Import Model.Overlay Proofs.OverlayInv Proofs.OverlayScan Proofs.OverlayRestart Proofs.OverlayReadOnly Proofs.OverlayCoh Proofs.OverlayCohView Proofs.OverlayCohOps Proofs.OverlayCohSteps Proofs.OverlayRefineTeq Proofs.OverlayRefineMerge Proofs.OverlayRefineRun Proofs.OverlayRefine Proofs.OverlayRefineWh Proofs.OverlayRefineCu Proofs.OverlayRefineCuFile Proofs.OverlayRefineLink Proofs.OverlayRefineRmdir Proofs.OverlayRefineDirAttr Proofs.OverlayRefineAll Proofs.OverlayRefineFail.
+From FB Require Import Model.Overlay Proofs.OverlayInv Proofs.OverlayScan Proofs.OverlayRestart Proofs.OverlayReadOnly Proofs.OverlayCoh Proofs.OverlayCohView Proofs.OverlayCohOps Proofs.OverlayCohSteps Proofs.OverlayRefineTeq Proofs.OverlayRefineMerge Proofs.OverlayRefineRun Proofs.OverlayRefine Proofs.OverlayRefineWh Proofs.OverlayRefineCu Proofs.OverlayRefineCuFile Proofs.OverlayRefineLink Proofs.OverlayRefineRmdir Proofs.OverlayRefineDirAttr Proofs.OverlayRefineCuRm Proofs.OverlayRefineAll Proofs.OverlayRefineFail.
 Import ListNotations.
 Local Open Scope string_scope.
 Local Open Scope N_scope.
@@ -298,7 +298,32 @@ Proof.
   repeat (first [apply Forall_cons | apply Forall_nil | split | apply wf_dir | apply wf_file | apply wf_lnk | apply wf_wh
                 | apply NoDup_cons | apply NoDup_nil | (cbn; intuition discriminate) | reflexivity ]).
 Qed.
-(* All fragments proved on [teq] as one statement: [refinable s o = direct || direct_wh || direct_cu || direct_link || direct_rmdir_merged || direct_dattr], and in the
+(* (c) for UNLINK of a visible regular file or symlink below a visible directory that the upper layer does not hold
+   (Proofs/OverlayRefineCuRm.v): the parent chain is copied up (hypothesis [cu_okb] as in C10_op_refines_copyup), then a whiteout is
+   written.  Proved by RE-RUNNING: from the state after the copy-up the whole operation equals its own tail (its lookups find
+   everything loaded, its copy-up is a no-op), and there C10_op_refines_whiteout's run lemma applies.  [direct_cu_rm]. *)
+Theorem C10_op_refines_unlink_copyup : forall s o v, Coherent s -> direct_cu_rm s o = true -> view (load_all s) = Some v ->
+  let spec := fs_apply o (mkFs v (next_ino s)) in
+  res_same (fst (step o s)) (fst spec) /\
+  oteq (view (load_all (run_op o s))) (Some (f_tree (snd spec))) /\
+  lowers (run_op o s) = lowers s.
+Proof. exact op_refines_unlink_cu. Qed.
+Example C10_op_refines_unlink_copyup_nonvacuous :
+  let u := Dir 493 [] [("d", Dir 493 [] [])] in
+  let l := Dir 493 [] [("d", Dir 448 [] [("e", Dir 448 [] [("g", File 8 416 [1] [("user.a", [1])]); ("l", Lnk [1])])]); ("z", Dir 493 [] [("f", File 2 420 [] [])]);
+                       ("y", Dir 493 [("user.k", [1])] [("f", File 3 420 [] [])])] in
+  let s := load_all (fresh (Some u) [l] 1000) in
+  Coherent s /\
+  forallb (direct_cu_rm s) [OUnlink ["d"; "e"; "g"]; OUnlink ["z"; "f"]; OUnlink ["d"; "e"; "l"]] = true /\
+  forallb (fun o => negb (direct_cu_rm s o)) [OUnlink ["y"; "f"]; OUnlink ["d"; "e"]; OUnlink ["z"; "q"]] = true /\
+  upper (run_op (OUnlink ["d"; "e"; "g"]) s) = Some (Dir 493 [] [("d", Dir 493 [] [("e", Dir 448 [] [("g", Wh)])])]).
+Proof.
+  cbv zeta. split; [|vm_compute; repeat split; reflexivity].
+  apply load_all_coherent. apply fresh_coherent.
+  repeat (first [apply Forall_cons | apply Forall_nil | split | apply wf_dir | apply wf_file | apply wf_lnk | apply wf_wh
+                | apply NoDup_cons | apply NoDup_nil | (cbn; intuition discriminate) | reflexivity ]).
+Qed.
+(* All fragments proved on [teq] as one statement: [refinable s o = direct || direct_wh || direct_cu || direct_link || direct_rmdir_merged || direct_dattr || direct_cu_rm], and in the
    form of C10_op_refines_full after any history over [coh_op]: the full refinement statement holds for every operation that
    satisfies [refinable] in the state reached (C10_op_refines_copyup_file adds the lower-file operations, on [ser]). *)
 Theorem C10_op_refines_fragments : forall s o v, Coherent s -> refinable s o = true -> view (load_all s) = Some v ->
@@ -505,6 +530,7 @@ Print Assumptions C10_op_refines_copyup_file.
 Print Assumptions C10_op_refines_link.
 Print Assumptions C10_op_refines_rmdir_merged.
 Print Assumptions C10_op_refines_dattr.
+Print Assumptions C10_op_refines_unlink_copyup.
 Print Assumptions C10_op_refines_fragments.
 Print Assumptions C10_op_refines_fragments_history.
 Print Assumptions C10_op_refines_enoent.
